@@ -62,7 +62,11 @@ func (w *evWorld) LoadEnvironment(ctx context.Context, name string) ([]byte, eva
 	if failed || !ok || e["kind"] == "fail" {
 		return nil, nil, fmt.Errorf("environment %q not found", name)
 	}
-	return []byte(e["text"].(string)), evDecrypter{w, name}, nil
+	text := e["text"].(string)
+	for k, v := range w.secrets {
+		text = strings.ReplaceAll(text, k, v)
+	}
+	return []byte(text), evDecrypter{w, name}, nil
 }
 
 type evProvider struct {
@@ -140,16 +144,20 @@ func (p evProvider) Schema() (*schema.Schema, *schema.Schema) {
 }
 
 // value trees travel as {"s":secret,"u":unknown,"v":<null|bool|{"n":text}|string|[...]|{"o":{...}}>}
-func valueFrom(v any, w *evWorld) esc.Value {
+func valueFrom(v any, w *evWorld) esc.Value { return valueFromIn(v, w, false) }
+
+// inSecret: the value lies inside a composite flagged secret, so its payload is secret too
+func valueFromIn(v any, w *evWorld, inSecret bool) esc.Value {
 	m := v.(map[string]any)
 	out := esc.Value{Secret: m["s"] == true, Unknown: m["u"] == true}
+	inSecret = inSecret || out.Secret
 	switch x := m["v"].(type) {
 	case nil:
 		out.Value = nil
 	case bool:
 		out.Value = x
 	case string:
-		if w != nil && out.Secret {
+		if w != nil && inSecret {
 			if s, ok := w.secrets[x]; ok {
 				x = s
 			}
@@ -158,7 +166,7 @@ func valueFrom(v any, w *evWorld) esc.Value {
 	case []any:
 		a := make([]esc.Value, len(x))
 		for i, e := range x {
-			a[i] = valueFrom(e, w)
+			a[i] = valueFromIn(e, w, inSecret)
 		}
 		out.Value = a
 	case map[string]any:
@@ -167,7 +175,7 @@ func valueFrom(v any, w *evWorld) esc.Value {
 		} else {
 			o := map[string]esc.Value{}
 			for k, e := range x["o"].(map[string]any) {
-				o[k] = valueFrom(e, w)
+				o[k] = valueFromIn(e, w, inSecret)
 			}
 			out.Value = o
 		}
